@@ -236,8 +236,8 @@ def oracle_line(case, out, dgroups):
     f = case.split()
     o = out.split()
     if not o or o[0] in ("CRASH", "ABORT"):
-        return ("out-of-bounds-access", "the implementation read or wrote outside the buffer it was given "
-                    "(SIGSEGV at the guard page / sanitizer report): " + out[:200])
+        return ("crash", "the implementation touched memory outside the buffer it was given (SIGSEGV at the "
+                         "PROT_NONE guard page) or a sanitizer reported undefined behaviour: " + out[:220])
     try:
         if f[0] == "E":
             v = int(f[1])
@@ -459,6 +459,22 @@ def c_sweep(ctx, sbin):
             if rc not in (0, 3):
                 fails.append("CRASH shard %s rc=%d %s" % (sh, rc, " ".join(o.split())[-200:]))
     return checked, fails
+
+
+def replay(ctx, path):
+    """tools/vcheck.py C18 --replay <replays/C18/x.json>: re-run the recorded case on the current tree."""
+    import json
+    obj = json.loads(Path(path).read_text())
+    case = obj.get("replay", {}).get("case_line")
+    if not case:
+        print("replay file has no case_line (broken tie without a failing input): " + str(obj.get("what"))[:500])
+        return 1
+    cbin = ctx.cc("drv", [H / "drv.c"], repo_srcs=["utf.c"], mode="asan")
+    rc, o, err = run_bin(cbin, case + "\n", timeout=60)
+    line = o[0] if o else "ABORT " + " ".join(err.split())[:300]
+    res = oracle_line(case, line, {})
+    print("case: %s\nimplementation: %s\n%s" % (case, line, "STILL FAILS: " + res[1] if res else "property holds on this case now"))
+    return 1 if res else 0
 
 
 def run(ctx):
